@@ -41,6 +41,9 @@ OPTIONS = ['-e', '-d', '-s', '-n', '-r', '-x.text', '-p.shstrtab', '-V', '--debu
 FALLBACKS = ('<unknown>', '<unknown:', 'unknown tag value', 'unknown at value', 'unknown form value', '<processor specific>', '<os specific>', 'processor specific:',
              'os specific:', 'operating system specific:', 'loos+', 'loproc+', 'louser+', 'unrecognized:', 'unknown note type', '(unknown:', '(unknown ', 'unknown op',
              '(user defined', 'user tag value', 'implementation defined:', 'unknown machine', '<application specific>', 'unknown language', 'bad value', '<corrupt', 'unknown cfa', '(unknown)')
+# generated files (space 3) may carry unknown values anywhere, not only in the probed field: every rendering by which the oracle says "I do not know this value"
+FALLBACKS_GENERATED = FALLBACKS + ('???', 'tag_unknown_', 'unknown attribute', 'unknown tag', 'unknown at', 'unknown form', '<other>:', 'unknown version', '<unknown', 'unknown:', 'invalid',
+                                   'unrecognised', 'unrecognized')
 
 
 def drift():
@@ -127,7 +130,7 @@ def compare(option, path, image_has=(), runner=ours_forked, probe=None):
         k = low.find('key to flags:')
         if k >= 0:
             low = low[:k]
-        for pat in FALLBACKS:
+        for pat in (FALLBACKS_GENERATED if probe is True else FALLBACKS):
             if pat in low:
                 return 'oracle-skip', 'oracle prints its fallback (%s)' % pat
     rc2, out2, err2 = runner(option, path)
